@@ -160,11 +160,102 @@ impl SymInt {
     pub fn to_f64(self) -> f64 {
         self.v as f64
     }
-    pub fn checked_add(self, o: SymInt) -> Option<SymInt> {
-        Some(self + o)
+    // checked / wrapping / overflowing forms: exact on concrete values; on symbolic ones the plain operator is used, which
+    // REFUSES (inconclusive, never a wrong verdict) when an overflow is possible inside the stated input ranges
+    pub fn checked_add(self, o: impl Into<SymInt>) -> Option<SymInt> {
+        let o: SymInt = o.into();
+        if self.t == 0 && o.t == 0 {
+            return self.v.checked_add(o.v).map(SymInt::lit);
+        }
+        // exact: the overflow test is an ordinary (recorded) comparison against MAX - o / MIN - o, computed with the
+        // saturating forms, which are exact on the side of the sign test; without overflow sat_add IS the sum
+        if o >= SymInt::lit(0) {
+            if self > SymInt::MAX.saturating_sub(o) {
+                return None;
+            }
+        } else if self < SymInt::MIN.saturating_sub(o) {
+            return None;
+        }
+        Some(self.saturating_add(o))
     }
-    pub fn checked_sub(self, o: SymInt) -> Option<SymInt> {
-        Some(self - o)
+    pub fn checked_sub(self, o: impl Into<SymInt>) -> Option<SymInt> {
+        let o: SymInt = o.into();
+        if self.t == 0 && o.t == 0 {
+            return self.v.checked_sub(o.v).map(SymInt::lit);
+        }
+        if o >= SymInt::lit(0) {
+            if self < SymInt::MIN.saturating_add(o) {
+                return None;
+            }
+        } else if self > SymInt::MAX.saturating_add(o) {
+            return None;
+        }
+        Some(self.saturating_sub(o))
+    }
+    pub fn checked_mul(self, o: impl Into<SymInt>) -> Option<SymInt> {
+        let o: SymInt = o.into();
+        if self.t == 0 && o.t == 0 {
+            return self.v.checked_mul(o.v).map(SymInt::lit);
+        }
+        Some(self * o)
+    }
+    pub fn checked_neg(self) -> Option<SymInt> {
+        if self.t == 0 {
+            return self.v.checked_neg().map(SymInt::lit);
+        }
+        Some(-self)
+    }
+    pub fn wrapping_add(self, o: impl Into<SymInt>) -> SymInt {
+        let o: SymInt = o.into();
+        if self.t == 0 && o.t == 0 {
+            return SymInt::lit(self.v.wrapping_add(o.v));
+        }
+        self + o
+    }
+    pub fn wrapping_sub(self, o: impl Into<SymInt>) -> SymInt {
+        let o: SymInt = o.into();
+        if self.t == 0 && o.t == 0 {
+            return SymInt::lit(self.v.wrapping_sub(o.v));
+        }
+        self - o
+    }
+    pub fn wrapping_neg(self) -> SymInt {
+        if self.t == 0 {
+            return SymInt::lit(self.v.wrapping_neg());
+        }
+        -self
+    }
+    pub fn saturating_neg(self) -> SymInt {
+        SymInt::lit(0).saturating_sub(self)
+    }
+    pub fn saturating_mul(self, o: impl Into<SymInt>) -> SymInt {
+        let o: SymInt = o.into();
+        if self.t == 0 && o.t == 0 {
+            return SymInt::lit(self.v.saturating_mul(o.v));
+        }
+        self * o
+    }
+    pub fn saturating_abs(self) -> SymInt {
+        if self.t == 0 {
+            return SymInt::lit(self.v.saturating_abs());
+        }
+        self.abs()
+    }
+    pub fn wrapping_abs(self) -> SymInt {
+        if self.t == 0 {
+            return SymInt::lit(self.v.wrapping_abs());
+        }
+        self.abs()
+    }
+    pub fn unsigned_abs(self) -> u64 {
+        self.cast_conc().unsigned_abs()
+    }
+    pub fn pow(self, e: u32) -> SymInt {
+        let mut acc = SymInt::lit(1);
+        for _ in 0..e {
+            acc = acc * self;
+        }
+        acc
     }
     pub fn is_positive(self) -> bool {
         self > SymInt::lit(0)
